@@ -256,68 +256,68 @@ Qed.
 
 (** one step of the shadow parse: no panic, no fuel exhaustion; the next node is the same or a
     subcommand; the state invariant is kept *)
-Lemma shadow_step_ok w cur pi esc st : args_ok cur -> st_ok st ->
-  exists cur' pi' esc' st', shadow_step w cur pi esc st = SNext cur' pi' esc' st' /\
+Lemma shadow_step_ok w cur pi esc st vaf : args_ok cur -> st_ok st ->
+  exists cur' pi' esc' st' vaf', shadow_step w cur pi esc st vaf = SNext cur' pi' esc' st' vaf' /\
     (cur' = cur \/ In cur' (c_subs cur)) /\ st_ok st'.
 Proof.
   intros Hok Hst. unfold shadow_step.
   destruct (parse_positional_ok cur pi esc st Hst) as [stp [pip [Ep Hp]]]. rewrite Ep.
   destruct (if _ && utf8_valid w then find_subcommand cur w else None) as [nc|] eqn:Es.
-  { do 4 eexists. split; [reflexivity|]. split; [|exact I]. right.
+  { do 5 eexists. split; [reflexivity|]. split; [|exact I]. right.
     destruct (_ && utf8_valid w); [|discriminate]. unfold find_subcommand in Es.
     apply find_some in Es. tauto. }
-  destruct esc. { do 4 eexists; split; [reflexivity|]; split; [left; reflexivity|assumption]. }
-  destruct (is_escape w). { do 4 eexists; split; [reflexivity|]; split; [left; reflexivity|exact I]. }
+  destruct esc. { do 5 eexists; split; [reflexivity|]; split; [left; reflexivity|assumption]. }
+  destruct (is_escape w). { do 5 eexists; split; [reflexivity|]; split; [left; reflexivity|exact I]. }
   destruct (opt_allows_hyphen st w) eqn:Eh.
   { destruct st as [|p n|o cnt];
       try (unfold opt_allows_hyphen in Eh; destruct w as [|b t]; [discriminate|];
            rewrite andb_false_r in Eh; discriminate).
     destruct (parse_opt_value_ok o cnt Hst) as [st' [E Hs]]. rewrite E.
-    do 4 eexists; split; [reflexivity|]; split; [left; reflexivity|assumption]. }
+    do 5 eexists; split; [reflexivity|]; split; [left; reflexivity|assumption]. }
   destruct (to_long w) as [[[flag u] value]|].
-  { destruct u; [|do 4 eexists; split; [reflexivity|]; split; [left; reflexivity|exact I]].
+  { destruct u; [|do 5 eexists; split; [reflexivity|]; split; [left; reflexivity|exact I]].
     destruct (find_long_visible cur flag) as [o|] eqn:Eo.
     - pose proof (args_ok_num _ _ Hok (find_long_visible_in _ _ _ Eo)) as Hn.
       destruct (a_num o) as [r|] eqn:En; [|tauto].
       destruct (r_takes_values r && is_none value);
-        do 4 eexists; (split; [reflexivity|]); (split; [left; reflexivity|]); cbn; try exact I.
+        do 5 eexists; (split; [reflexivity|]); (split; [left; reflexivity|]); cbn; try exact I.
       rewrite En; discriminate.
     - destruct (pos_allows_hyphen cur pi);
-        do 4 eexists; (split; [reflexivity|]); (split; [left; reflexivity|]); [assumption|exact I]. }
+        do 5 eexists; (split; [reflexivity|]); (split; [left; reflexivity|]); [assumption|exact I]. }
   destruct (to_short w) as [short|].
   { destruct (parse_shortflags_safe cur short Hok) as [Hpn Hfn].
     destruct (parse_shortflags cur short) as [| |leading [o|] short'] eqn:E; try tauto.
     - unfold parse_shortflags in E. apply parse_shortflags_loop_opt in E.
       pose proof (args_ok_num _ _ Hok E) as Hn.
       destruct (is_none (next_value_os short'));
-        do 4 eexists; (split; [reflexivity|]); (split; [left; reflexivity|]); cbn; try exact I. assumption.
+        do 5 eexists; (split; [reflexivity|]); (split; [left; reflexivity|]); cbn; try exact I. assumption.
     - destruct (utf8_valid w && forallb (has_short cur) (decode leading)).
-      { do 4 eexists; split; [reflexivity|]; split; [left; reflexivity|exact I]. }
+      { do 5 eexists; split; [reflexivity|]; split; [left; reflexivity|exact I]. }
       destruct (pos_allows_hyphen cur pi);
-        do 4 eexists; (split; [reflexivity|]); (split; [left; reflexivity|]); [assumption|exact I]. }
+        do 5 eexists; (split; [reflexivity|]); (split; [left; reflexivity|]); [assumption|exact I]. }
   destruct st as [|p n|o cnt].
-  - do 4 eexists; split; [reflexivity|]; split; [left; reflexivity|assumption].
-  - do 4 eexists; split; [reflexivity|]; split; [left; reflexivity|assumption].
+  - do 5 eexists; split; [reflexivity|]; split; [left; reflexivity|assumption].
+  - do 5 eexists; split; [reflexivity|]; split; [left; reflexivity|assumption].
   - destruct (parse_opt_value_ok o cnt Hst) as [st' [E Hs]]. rewrite E.
-    do 4 eexists; split; [reflexivity|]; split; [left; reflexivity|assumption].
+    do 5 eexists; split; [reflexivity|]; split; [left; reflexivity|assumption].
 Qed.
 
 (** the walk: ends, or stands at a node reachable from the start with a good state *)
-Lemma shadow_walk_ok : forall items cursor target cur pi esc st,
+Lemma shadow_walk_ok : forall items cursor target cur pi esc st vaf,
   tree_all args_ok cur -> st_ok st ->
-  shadow_walk items cursor target cur pi esc st = WEnd \/
-  exists w cur' pi' st' esc', shadow_walk items cursor target cur pi esc st = WAt w cur' pi' st' esc' /\
+  shadow_walk items cursor target cur pi esc st vaf = WEnd \/
+  exists w cur' pi' st' esc', shadow_walk items cursor target cur pi esc st vaf = WAt w cur' pi' st' esc' /\
     reach cur cur' /\ st_ok st'.
 Proof.
-  induction items as [|w rest IH]; intros cursor target cur pi esc st Ht Hst; cbn [shadow_walk].
+  induction items as [|w rest IH]; intros cursor target cur pi esc st vaf Ht Hst; cbn [shadow_walk].
   - left; reflexivity.
   - destruct (sat_add cursor 1 =? target).
     + right. do 5 eexists. split; [reflexivity|]. split; [constructor|assumption].
-    + destruct (shadow_step_ok w cur pi esc st (tree_all_here _ _ Ht) Hst)
-        as [cur' [pi' [esc' [st' [E [Hc Hs]]]]]].
+    + destruct (shadow_step_ok w cur pi esc st vaf (tree_all_here _ _ Ht) Hst)
+        as [cur' [pi' [esc' [st' [vaf' [E [Hc Hs]]]]]]].
       rewrite E.
       assert (Ht' : tree_all args_ok cur') by (destruct Hc as [->|Hin]; [assumption|eapply tree_all_sub; eauto]).
-      destruct (IH (sat_add cursor 1) target cur' pi' esc' st' Ht' Hs) as [H|[w' [c2 [p2 [s2 [e2 [H [Hr Hs2]]]]]]]].
+      destruct (IH (sat_add cursor 1) target cur' pi' esc' st' vaf' Ht' Hs) as [H|[w' [c2 [p2 [s2 [e2 [H [Hr Hs2]]]]]]]].
       * left; assumption.
       * right. do 5 eexists. split; [exact H|]. split; [|assumption].
         destruct Hc as [->|Hin]; [assumption|econstructor; eauto].
@@ -329,7 +329,7 @@ Proof.
   destruct (shadow_walk_ok
      (skipn (N.to_nat (if is_set s_no_binary_name b then 0 else 1)) args)
      (if is_set s_no_binary_name b then 0 else 1)
-     (sat_add (N.min i (N.of_nat (length args))) 1) b 1 false ValueDone Ht I)
+     (sat_add (N.min i (N.of_nat (length args))) 1) b 1 false ValueDone false Ht I)
     as [H|[w [c [p [s [e [H [Hr Hs]]]]]]]];
     rewrite H.
   - intros [[x Hx]|Hx]; discriminate.
@@ -920,7 +920,7 @@ Proof.
   destruct (shadow_walk_ok
      (skipn (N.to_nat (if is_set s_no_binary_name b then 0 else 1)) args)
      (if is_set s_no_binary_name b then 0 else 1)
-     (sat_add (N.min i (N.of_nat (length args))) 1) b 1 false ValueDone Ht I)
+     (sat_add (N.min i (N.of_nat (length args))) 1) b 1 false ValueDone false Ht I)
     as [E|[w' [c' [p' [s' [e' [E [Hr _]]]]]]]]; rewrite E in H; [discriminate|].
   inversion H; subst. split; [assumption|]. apply (tree_all_here args_ok). eapply tree_all_reach; eauto.
 Qed.
